@@ -23,15 +23,16 @@ Section C07.
     /\ StronglySorted (fun x y => key_leb (fst x) (fst y) = true) (sort_ents l).
   Proof. exact (render_order tbl uni_alphabetic). Qed.
 
-  (* the text of a composition with positive counts parses back to an equal composition *)
+  (* the text of a non-empty composition with positive counts parses back to an equal composition
+     (the empty composition renders "" which is not a formula: the statement without `l <> []` is false) *)
   Theorem C07_render_parse : table_syms_ok tbl = true -> forall l f,
-    nodup_keys l = true ->
+    l <> [] -> nodup_keys l = true ->
     (forall k n, In (k, n) l ->
        (0 < n <= 2147483647)%Z /\ sym_shape uni_numeric (fst k) = true /\ has_elem tbl (fst k) = true
        /\ (snd k = 0%N \/ has_iso tbl (fst k) (snd k) = true) /\ (snd k < 65536)%N) ->
     exists c, parse_formula uni_numeric (has_elem tbl) (has_iso tbl) (to_formula tbl uni_alphabetic f l) = FOk c
               /\ same_map c l.
-  Proof. exact (render_parse tbl uni_alphabetic uni_numeric). Qed.
+  Proof. exact (render_parse_nonempty tbl uni_alphabetic uni_numeric). Qed.
 End C07.
 
 (* which table symbols can head a formula item at all: every one except the electron pseudo-element `e*` *)
